@@ -236,6 +236,40 @@ func runSequence(steps []Step) (sig, msg string, stats map[string]int) {
 			maxRev = mv.Rev
 			lastWrite[key] = time.Now()
 			stats["delete"]++
+		case "deleterev":
+			// the revision-checked delete a graceful shutdown uses (leader.RevisionDeleter)
+			var rev uint64
+			cur := model.Stored(key)
+			switch st.Rev {
+			case "latest":
+				if cur != nil {
+					rev = cur.Rev
+				}
+			case "stale":
+				if cur != nil && cur.Rev > 1 {
+					rev = cur.Rev - 1
+				} else {
+					rev = 9999
+				}
+			case "future":
+				rev = maxRev + 7
+			}
+			rd, ok := kv.(leader.RevisionDeleter)
+			if !ok {
+				return fail(i, "C14 adapter-has-no-revision-checked-delete", "")
+			}
+			err := rd.DeleteRevision(key, rev)
+			mv, merr := model.DeleteRev(key, rev, "t")
+			if d := sameErr(err, merr); d != "" {
+				return fail(i, "C14 deleterev-outcome-differs", fmt.Sprintf("DeleteRevision(expected %d): %s", rev, d))
+			}
+			if err == nil {
+				maxRev = mv.Rev
+				lastWrite[key] = time.Now()
+				stats["deleterev-ok"]++
+			} else {
+				stats["deleterev-rejected"]++
+			}
 		case "sleepexpire":
 			time.Sleep(ttl + marginAfter)
 			stats["expiry"]++
@@ -402,7 +436,7 @@ func genSteps() *rapid.Generator[[]Step] {
 		}
 		for i := 0; i < n; i++ {
 			st := Step{Key: rapid.SampledFrom([]int{0, 0, 0, 0, 1, 2}).Draw(t, "key"), W: rapid.IntRange(0, 3).Draw(t, "w")}
-			op := rapid.SampledFrom([]string{"create", "create", "update", "update", "update", "get", "get", "delete", "sleepexpire", "watch", "recv", "recv", "recv", "stopwatch", "updatescalls"}).Draw(t, "op")
+			op := rapid.SampledFrom([]string{"create", "create", "update", "update", "update", "get", "get", "delete", "deleterev", "sleepexpire", "watch", "recv", "recv", "recv", "stopwatch", "updatescalls"}).Draw(t, "op")
 			if op == "sleepexpire" {
 				if sleeps >= 3 {
 					op = "get"
@@ -423,7 +457,7 @@ func genSteps() *rapid.Generator[[]Step] {
 					st.Value = []byte(rapid.StringN(0, 20, 40).Draw(t, "val"))
 				}
 			}
-			if op == "update" {
+			if op == "update" || op == "deleterev" {
 				st.Rev = rapid.SampledFrom([]string{"latest", "latest", "latest", "stale", "future", "zero"}).Draw(t, "rev")
 			}
 			steps = append(steps, st)
@@ -441,7 +475,7 @@ func genSteps() *rapid.Generator[[]Step] {
 func TestC14(t *testing.T) {
 	r := report.New("C14")
 	defer r.Write()
-	r.Rule = "operation sequences (4-30 steps over 3 keys in a fresh memory-storage bucket with MaxAge 200ms on an embedded nats-server, issued through the library's real adapter): Create(v), Update(v, revision in {latest, stale, future, 0}), Get, Delete, sleep past expiry (<=3), Watch, receive-everything on a watcher (calling Updates() before every receive as the watch loop does), stop a watcher, 300 extra Updates() calls; values empty / text / invalid UTF-8 / 64KiB; oracle: after every step the adapter's result equals the reference model's (success, revision, error text, errors.Is/As relations, classification), revisions strictly increase, each watcher receives exactly the model's event queue in order (initial value, nil marker, every change once, deletions as empty values, nothing on expiry) through one stable channel, goroutines with adapter frames do not grow with Updates() calls, and none is left once every watcher of the sequence has been stopped (drained or with events pending, read or never read). Non-trivial = a sequence with a stale-revision Update, a Create after delete or expiry, and a watcher that received >= 3 events; distinct by hash of the sequence."
+	r.Rule = "operation sequences (4-30 steps over 3 keys in a fresh memory-storage bucket with MaxAge 200ms on an embedded nats-server, issued through the library's real adapter): Create(v), Update(v, revision in {latest, stale, future, 0}), Get, Delete, DeleteRevision(revision in {latest, stale, future, 0}), sleep past expiry (<=3), Watch, receive-everything on a watcher (calling Updates() before every receive as the watch loop does), stop a watcher, 300 extra Updates() calls; values empty / text / invalid UTF-8 / 64KiB; oracle: after every step the adapter's result equals the reference model's (success, revision, error text, errors.Is/As relations, classification), revisions strictly increase, each watcher receives exactly the model's event queue in order (initial value, nil marker, every change once, deletions as empty values, nothing on expiry) through one stable channel, goroutines with adapter frames do not grow with Updates() calls, and none is left once every watcher of the sequence has been stopped (drained or with events pending, read or never read). Non-trivial = a sequence with a stale-revision Update, a Create after delete or expiry, and a watcher that received >= 3 events; distinct by hash of the sequence."
 	r.Assume("real time against nats-server v2.12.2 / nats.go v1.47.0, memory storage; a message lives between MaxAge and MaxAge+~250ms on the server (age timer granularity), so operations are kept out of the window (age in [MaxAge-60ms, MaxAge+330ms]) in which the outcome is the server's choice; single server (R=1); bucket history 64: with history 1 JetStream itself drops a superseded revision that a lagging watcher has not been sent yet (observed once under load), so 'every change exactly once' is only well-defined within the history depth")
 	judge := func(steps []Step) string {
 		sig, msg, stats := runSequence(steps)
